@@ -21,6 +21,7 @@ CONSTANTS
     ConRecs,            \* constraint records offered to the model checker
     MaxCons,            \* bound on the number of constraints (model checking only)
     Methods,            \* methods offered to the model checker
+    OptSets,            \* solve options offered to the model checker (records like DefaultOpts)
     FaultExcs,          \* exception classes the environment may raise inside the solver (model checking)
     OnlySuccess,        \* TRUE: the environment only returns "converged at a feasible point" (history graphs)
     EditInvalidates,    \* minimize / maximize / subject_to drop every derived cache      (intended TRUE)
@@ -101,18 +102,23 @@ ReadVars ==                       \* problem.variables / n_variables / get_bound
     /\ UNCHANGED <<hook, pc, call, res, fault, out>>
 
 (* ---------------------------------------------------------------- a solve, step by step *)
+\* solve(method, strict, x0=, tol=, maxiter=, use_hessian=): whether each optional argument was given
+\* (use_hessian: its value); the arguments are handed to every solver entry of the call, the retry included
+DefaultOpts == [useHess |-> TRUE, x0 |-> FALSE, tol |-> FALSE, maxiter |-> FALSE]
 NoCall == [m |-> "", strict |-> FALSE, route |-> "", method |-> "", retried |-> FALSE, warned |-> 0,
-           entries |-> 0, used |-> None, rebuilt |-> FALSE]
+           entries |-> 0, used |-> None, rebuilt |-> FALSE, opts |-> DefaultOpts]
 NoRes  == [success |-> FALSE, msg |-> "other", x |-> "feas", lp |-> 9]
 NoOut  == [kind |-> "none"]
 Raise(exc) == /\ out' = [kind |-> "raised", exc |-> exc] /\ pc' = "done"
 
-SolveBegin(m, strict) ==
+SolveBeginOpts(m, strict, o) ==
     /\ Idle
-    /\ call' = [NoCall EXCEPT !.m = m, !.strict = strict]
+    /\ call' = [NoCall EXCEPT !.m = m, !.strict = strict, !.opts = o]
     /\ res' = NoRes /\ fault' = "none"
     /\ IF ~HasObj THEN Raise("NoObjectiveError") ELSE (pc' = "route" /\ out' = NoOut)
     /\ UNCHANGED modelVars /\ KeepCaches /\ UNCHANGED hook
+
+SolveBegin(m, strict) == SolveBeginOpts(m, strict, DefaultOpts)
 
 \* auto: the linearity decision is cached; explicit LP methods re-check linearity without the cache
 Route ==
@@ -159,10 +165,12 @@ Fill ==
             /\ pc' = "hess"
     /\ UNCHANGED <<cVars, cLin>> /\ UNCHANGED modelVars /\ UNCHANGED <<hook, res, fault, out>>
 
+\* the solver is handed a Hessian iff the method uses one and the caller did not switch it off
+HandsHessian == call.method \in HessianMethods /\ call.opts.useHess
 \* the Hessian is compiled lazily, the first time a method that uses it runs on this cache
 LazyHess ==
     /\ pc = "hess"
-    /\ cSolver' = [cSolver EXCEPT !.hess = @ \/ call.method \in HessianMethods]
+    /\ cSolver' = [cSolver EXCEPT !.hess = @ \/ HandsHessian]
     /\ pc' = "swap"
     /\ UNCHANGED <<cVars, cLP, cLin>> /\ UNCHANGED modelVars /\ UNCHANGED <<hook, call, res, fault, out>>
 
@@ -254,12 +262,17 @@ LpOutcomes  == {r \in [success : BOOLEAN, msg : {"ok"}, x : XClasses, lp : 0..4]
 Outcomes == LET all == IF call.route = "lp" THEN LpOutcomes ELSE NlpOutcomes
             IN IF OnlySuccess THEN {r \in all : r.success /\ r.x = "feas"} ELSE all
 
+\* named so that TLC's labelled state graph carries the arguments (the harness replays the graph's edges)
+SubjectTo1(c) == Len(cons) < MaxCons /\ SubjectTo(<<c>>)
+SubjectTo2(c, d) == Len(cons) + 1 < MaxCons /\ c.id < d.id /\ SubjectTo(<<c, d>>)
+
 Next ==
     \/ \E o \in ObjRecs, s \in {"minimize", "maximize"} : SetObjective(o, s)
-    \/ \E c \in ConRecs : Len(cons) < MaxCons /\ SubjectTo(<<c>>)
-    \/ \E c \in ConRecs, d \in ConRecs : Len(cons) + 1 < MaxCons /\ c.id < d.id /\ SubjectTo(<<c, d>>)
+    \/ \E c \in ConRecs : SubjectTo1(c)
+    \/ \E c \in ConRecs, d \in ConRecs : SubjectTo2(c, d)
     \/ SetBound \/ SetParam \/ ReadVars
     \/ \E m \in Methods, st \in BOOLEAN : SolveBegin(m, st)
+    \/ \E m \in Methods, st \in BOOLEAN, o \in OptSets \ {DefaultOpts} : SolveBeginOpts(m, st, o)
     \/ Route \/ Vars \/ Gate \/ Fill \/ LazyHess \/ HookSwap
     \/ \E r \in Outcomes : SolverReturns(r)
     \/ \E e \in FaultExcs : SolverRaises(e)
